@@ -43,6 +43,21 @@ func (p *ConfigProp[T]) Overwrite(value T) {
 	p.onChange.Fire(value)
 }
 
+// Takes over the command-line overwrite of the same property of another configuration, if it has one.
+func (p *ConfigProp[T]) copyOverwriteFrom(src any) {
+	other, ok := src.(*ConfigProp[T])
+	if !ok {
+		return
+	}
+	from, _ := other.value.Load()
+	if !from.ref().IsOverwritten() {
+		return
+	}
+	commit, _ := p.value.Load()
+	commit.ref().Overwrite(from.ref().Get())
+	p.value.Store(commit)
+}
+
 // Stages the new value, keeping the old. The change is not committed until CommitStaged is called,
 // and subscribers are not told about it until NotifyCommitted is called.
 func (p *ConfigProp[T]) Stage(newValue T) {
